@@ -178,7 +178,7 @@ def run(ctx):
                   "after a matching conditional default the %s is still reachable: an argument can receive more than one default" % ("plain default" if any(B[0].bb in ad.reachable(i) for i in S) else "next condition"))
         res.check(all("T:add" in guard_strs(ad, c.bb) for c in A), "R6.7", "conditional-only-on-match", A[0].where(), "conditional default applied only when its condition holds", "conditional default applied without its condition")
     adds = ad.locals_named("add")
-    absent = [i for i, j, s_ in ad.stmts() if s_["k"] == "assign" and s_["place"] in adds and any(re.match(r"^!V1:get\(matcher,", g) for g in guard_strs(ad, i))]
+    absent = [i for i, j, s_ in ad.stmts() if s_["k"] == "assign" and s_["place"] in adds and any(re.match(r"^(!V1|V0):get\(matcher,", g) for g in guard_strs(ad, i))]
     res.check(bool(absent) and all(op_int(s_["rv"]["op"]) == 0 for i, j, s_ in ad.stmts() if i in absent and s_["k"] == "assign" and s_["place"] in adds and s_["rv"]["k"] == "use"),
               "R6.7", "condition-false-when-absent", ad.where(), "a condition on an argument without matches is false", "a conditional default fires although the argument it depends on is not in the matches")
 
